@@ -178,7 +178,7 @@ func (ex *Exec) bytesToString(st *State, s *Term) *Term {
 	k := mk("k?", SInt)
 	inner := sel(ex.mem(st, tByte), ex.sRef(s))
 	st.assume(forall([]*Term{k}, implies(and(ge(k, intLit(0)), lt(k, ex.sLen(s))),
-		eq(ex.strAt(r, k), sel(inner, add(ex.sOff(s), k)))), []*Term{ex.strAt(r, k)}))
+		eq(ex.strAt(r, k), sel(inner, ex.ix(ex.sOff(s), k)))), []*Term{ex.strAt(r, k)}))
 	return r
 }
 
@@ -366,6 +366,9 @@ func (ex *Exec) appendBuiltin(st *State, e *ast.CallExpr) *Val {
 	oldLen := ex.sLen(s.Term)
 	newLen := add(oldLen, addLen)
 	fits := le(newLen, ex.sCap(s.Term))
+	if n, ok := isIntLit(addLen); ok && n >= 1 && ex.clipped[s.Term.Op] {
+		fits = tFalse // cap == len: appending always reallocates
+	}
 	m := ex.mem(st, elem)
 	// in-place array: old inner with new elements stored at off+len+i
 	inPlace := sel(m, ex.sRef(s.Term))
@@ -376,11 +379,11 @@ func (ex *Exec) appendBuiltin(st *State, e *ast.CallExpr) *Val {
 	k := mk("k?", SInt)
 	oldInner := sel(m, ex.sRef(s.Term))
 	st.assume(forall([]*Term{k}, implies(and(ge(k, intLit(0)), lt(k, oldLen)),
-		eq(sel(realloc, k), sel(oldInner, add(ex.sOff(s.Term), k)))), []*Term{sel(realloc, k)}))
+		eq(sel(realloc, k), sel(oldInner, ex.ix(ex.sOff(s.Term), k)))), []*Term{sel(realloc, k)}))
 	if spread == nil {
 		rl := realloc
 		for i, t := range singles {
-			inPlace = store(inPlace, add(baseIP, intLit(int64(i))), t)
+			inPlace = store(inPlace, ex.ix(ex.sOff(s.Term), add(oldLen, intLit(int64(i)))), t)
 			rl = store(rl, add(oldLen, intLit(int64(i))), t)
 		}
 		realloc = rl
@@ -392,7 +395,7 @@ func (ex *Exec) appendBuiltin(st *State, e *ast.CallExpr) *Val {
 			if spread.Term.S == SStr {
 				return ex.strAt(spread.Term, i)
 			}
-			return sel(sel(m, ex.sRef(spread.Term)), add(ex.sOff(spread.Term), i))
+			return sel(sel(m, ex.sRef(spread.Term)), ex.ix(ex.sOff(spread.Term), i))
 		}
 		st.assume(forall([]*Term{k}, eq(sel(ip2, k),
 			ite(and(ge(k, baseIP), lt(k, add(baseIP, addLen))), srcAt(sub(k, baseIP)), sel(inPlace, k))), []*Term{sel(ip2, k)}))
@@ -407,7 +410,10 @@ func (ex *Exec) appendBuiltin(st *State, e *ast.CallExpr) *Val {
 	st.assume(eq(ex.sOff(res), ite(fits, ex.sOff(s.Term), intLit(0))))
 	st.assume(eq(ex.sLen(res), newLen))
 	st.assume(eq(ex.sCap(res), ite(fits, ex.sCap(s.Term), newCap)))
-	st.heaps[mname] = ite(fits, store(m, ex.sRef(s.Term), inPlace), store(m, newRef, realloc))
+	// name the new memory so that later terms stay small
+	newMem := ex.fresh(strings.TrimSuffix(mname, "@0"), m.S)
+	st.assume(eq(newMem, ite(fits, store(m, ex.sRef(s.Term), inPlace), store(m, newRef, realloc))))
+	st.heaps[mname] = newMem
 	_ = st0
 	return &Val{T: ex.typeOf(e), Term: res}
 }
